@@ -7,7 +7,7 @@ use crate::report::{par_run, Report};
 use crate::rng::Rng;
 use serde_json::json;
 
-pub const RULE: &str = "All 22 indicators, every period 1..=64 (every period slot for multi-period ones, others varied), multipliers {0,-1,1e308,NaN,2}: seeded op programs of at least 3n+3 (and at least 60) client calls mixing ordinary values with NaN, +-inf, +-f64::MAX, subnormals, signed zeros, bars violating low<=close<=high, scalar and bar feeds, a second user bar type, reset, clone (clone then driven too), clone_from into a used instance built with the same or different periods, Display, Debug, period(), bincode serialize and serialize-deserialize-swap; sampled periods up to 4096; programs on Default::default() instances incl. ta::DataItem feeds and the constructors' rejection path; programs driven on a brand-new thread that constructed nothing (instance moved there, or restored there from bytes); plus long runs of 1.1*10^6 calls (4.3*10^6 thorough) for periods {1,2,3,7,64} (counters far past every wrap). Each call is wrapped in catch_unwind with the crate built with overflow checks and debug assertions; any panic or serialization error is a violation. Non-trivial: a program with >= 3n+3 next calls containing at least one non-finite or extreme input; distinct by construction (indicator, period tuple, repetition).";
+pub const RULE: &str = "All 22 indicators, every period 1..=64 (every period slot for multi-period ones, others varied), multipliers {0,-1,1e308,NaN,2}: seeded op programs of at least 3n+3 (and at least 60) client calls mixing ordinary values with NaN, +-inf, +-f64::MAX, subnormals, signed zeros, bars violating low<=close<=high, scalar and bar feeds, a second user bar type, reset, clone (clone then driven too), clone_from into a used instance built with the same or different periods, Display, Debug, period(), bincode serialize and serialize-deserialize-swap; sampled periods up to 4096; programs on Default::default() instances incl. ta::DataItem feeds and the constructors' rejection path; programs driven on a brand-new thread that constructed nothing (instance moved there, or restored there from bytes); plus long runs of 1.1*10^6 calls (4.3*10^6 thorough) for periods {1,2,3,7,64} (counters far past every wrap; 6 000 identical bars every 50 000 calls). Each call is wrapped in catch_unwind with the crate built with overflow checks and debug assertions; any panic or serialization error is a violation. Non-trivial: a program with >= 3n+3 next calls containing at least one non-finite or extreme input; distinct by construction (indicator, period tuple, repetition).";
 
 const MULTS: [f64; 5] = [0.0, -1.0, 1e308, f64::NAN, 2.0];
 
@@ -212,6 +212,10 @@ fn run_sampled_large(ctx: &Ctx) -> Report {
     })
 }
 
+fn halted(i: usize) -> bool {
+    i >= 20_000 && i % 50_000 < 6_000
+}
+
 fn run_long(ctx: &Ctx) -> Report {
     let calls = ctx.pick(1_100_000usize, 4_300_000usize); // past 2^20 (quick) / 2^22 (thorough) calls
     let mut jobs = Vec::new();
@@ -228,14 +232,19 @@ fn run_long(ctx: &Ctx) -> Report {
         let p = params_with_slot(*kind, *n, 4);
         let mut inst = Inst::new(&p);
         let mut g = BarGen::new(BarStyle::Mixed, 1.0, seed ^ (*n as u64 * 77 + *kind as u64));
+        let mut held = g.next();
         for i in 0..calls {
-            let b = g.next();
+            // the instrument is halted now and then: 6 000 identical bars every 50 000 calls (exponential
+            // averages decay through the subnormal range to exactly zero, windows go and stay flat)
+            let b = if halted(i) { held } else { g.next() };
+            held = b;
             let r = if kind.has_scalar() && i % 3 == 0 { inst.next_f64(b.c) } else { inst.next_bar(&b) };
             rep.evaluations += 1;
             if let Err(e) = r {
                 // the witness is the call count: rebuild the stream for the replay file
                 let mut g2 = BarGen::new(BarStyle::Mixed, 1.0, seed ^ (*n as u64 * 77 + *kind as u64));
-                let ops: Vec<Op> = (0..=i).map(|k| { let b = g2.next(); if kind.has_scalar() && k % 3 == 0 { Op::NextF(b.c) } else { Op::NextBar(b) } }).collect();
+                let mut held2 = g2.next();
+                let ops: Vec<Op> = (0..=i).map(|k| { let b = if halted(k) { held2 } else { g2.next() }; held2 = b; if kind.has_scalar() && k % 3 == 0 { Op::NextF(b.c) } else { Op::NextBar(b) } }).collect();
                 violation(rep, &p, &ops, &e.0, "long_run");
                 return;
             }
